@@ -78,7 +78,7 @@ fn render(q: &QRCode) -> Result<String, String> {
 
 pub fn run(ctx: &Ctx) -> Collector {
     let col = Collector::new("C16", "exploration");
-    col.set_rule("cases = (i) to_str() of every S_cell symbol (all 40 sizes x levels x masks x modes); (ii) synthetic matrices through the public QRCode::default(size) + data[i].set(): for every size all-light, all-dark, both checkerboards, row and column stripes, and the complete single-module basis (one dark module in an all-light matrix and one light module in an all-dark matrix at EVERY coordinate; quick: sizes v1-v6 and v40, thorough: all 40 sizes); oracle: the text parses back into (size+1)/2+1 lines of size+2 characters from the four-character alphabet whose (top, bottom) halves reproduce every module in place inside a one-module light border; non-trivial = matrix has at least one dark module; distinct = distinct rendered strings");
+    col.set_rule("cases = (i) to_str() of every S_cell symbol (all 40 sizes x levels x masks x modes), every eighth right after a rendering that fails on the same thread; (ii) synthetic matrices through the public QRCode::default(size) + data[i].set(): for every size all-light, all-dark, both checkerboards, row and column stripes, and the complete single-module basis (one dark module in an all-light matrix and one light module in an all-dark matrix at EVERY coordinate; quick: sizes v1-v6 and v40, thorough: all 40 sizes); oracle: the text parses back into (size+1)/2+1 lines of size+2 characters from the four-character alphabet whose (top, bottom) halves reproduce every module in place inside a one-module light border; non-trivial = matrix has at least one dark module; distinct = distinct rendered strings");
     let thorough = ctx.tier.thorough();
     // (i) built symbols
     let sp = spaces::s_cell(thorough);
@@ -89,6 +89,12 @@ pub fn run(ctx: &Ctx) -> Collector {
         match subject::build(&input, &case.opts) {
             Outcome::Ok(q) => {
                 let n = q.size;
+                // every eighth case comes right after a rendering that fails on the same thread (a matrix whose side
+                // exceeds its storage: the renderer panics part of the way through; caught): whatever that left
+                // behind must not show in this text
+                if i % 8 == 3 {
+                    let _ = render(&fast_qr::QRCode::default(200));
+                }
                 match render(&q) {
                     Ok(text) => {
                         col.eval(Some(crate::util::fnv(text.as_bytes())));
